@@ -7,11 +7,11 @@
 
    The per-indicator obligation is a *shape* equation: on a store  a ++ c :: rest  the reading
    at index |a| is a function D of the prefix and of the candle, the only effect is the helper
-   slot of c, and nothing behind c is looked at.  Re-computation of a stored None reading must
-   reproduce it (Hrecomp). *)
+   slot of c, and nothing behind c is looked at.  Re-computing the reading of a calculated candle
+   must reproduce it (Hrecomp). *)
 From Coq Require Import ZArith List String Bool Lia ZifyBool.
 From Hexital Require Import Base.Prelude Base.Num Model.Manager Model.Candle Model.Readings Model.Analysis
-  Model.Engine Proofs.ListProofs Proofs.EngineProofs.
+  Model.Engine Proofs.ListProofs Proofs.EngineProofs Proofs.MaintProofs.
 Import ListNotations.
 Local Open Scope Z_scope.
 
@@ -59,8 +59,7 @@ Inductive IsCanonD : store -> Prop :=
 Hypothesis Hshape : forall f (a : store) (c : cd) (rest : store), IsCanonD a -> G c ->
   calc_reading NO (run NO (S f)) I (a ++ c :: rest) (zlen a) =
   (r <- D a c ;; Ok (fst r, a ++ slotM c (snd r) :: rest)).
-Hypothesis Hrecomp : forall (a : store) (d : cd) r, IsCanonD a -> freshD d -> D a d = Ok r ->
-  is_none NO (rndI (fst r)) = true -> D a (deco d r) = Ok r.
+Hypothesis Hrecomp : forall (a : store) (d : cd) r, IsCanonD a -> freshD d -> D a d = Ok r -> D a (deco d r) = Ok r.
 
 (* ---------------------------------------------------------------- slots *)
 Lemma getM_setkI d v : alist_get nmM (own NO M (setkI d v)) = alist_get nmM (own NO M d).
@@ -182,8 +181,7 @@ Proof.
       assert (Hg : G c) by (rewrite Ec; apply G_deco; apply Hd).
       rewrite (loop_step f a c (m ++ tail) _ Ha Hg).
       2:{ fold (EngineProofs.own NO I c). rewrite Ec. rewrite getI_deco, Nn. reflexivity. }
-      assert (Nn' : is_none NO (rndI (fst r)) = true) by (destruct (is_none NO (rndI (fst r))); [reflexivity|discriminate]).
-      rewrite Ec at 1. rewrite (Hrecomp a d r Ha Hd Er Nn'). cbn [bind].
+      rewrite Ec at 1. rewrite (Hrecomp a d r Ha Hd Er). cbn [bind].
       rewrite Ec. rewrite slotM_deco. unfold deco at 1. rewrite setk_idem. fold (deco d r). rewrite <- Ec. exact Next.
 Qed.
 
@@ -306,6 +304,232 @@ Proof.
   intros Hf H. rewrite batch_is_canonD in H by exact Hf.
   assert (Hc : IsCanonD st) by (eapply canonD_acc_iscanon; [constructor|exact Hf|exact H]).
   pose proof (append_is_canonD st [] Hc (Forall_nil _)) as A. rewrite app_nil_r in A. exact A.
+Qed.
+
+(* ---------------------------------------------------------------- work per append (C07) *)
+(* the loop of calculate() instrumented with a counter of _calculate_reading invocations *)
+Fixpoint loop_steps (f : nat) (idxs : list Z) (st : store) : res (nat * store) :=
+  match idxs with
+  | [] => Ok (0%nat, st)
+  | i :: rest =>
+    match pyidx st i with
+    | None => Err IndexError
+    | Some c =>
+      if match alist_get nmI (own_dict NO I (p c)) with Some v => negb (is_none NO v) | None => false end
+      then loop_steps f rest st
+      else '(v, st1) <- run NO (S (S f)) (RReading NO i) I st ;;
+           st2 <- set_reading NO st1 I (round_val NO (i_round NO I) v) i ;;
+           '(n, r) <- loop_steps f rest st2 ;; Ok (S n, r)
+    end
+  end.
+
+Lemma loop_steps_loop f : forall idxs st, loop f idxs true st = ('(_, r) <- loop_steps f idxs st ;; Ok r).
+Proof.
+  induction idxs as [|i idxs IH]; intros st; cbn [calc_loop loop_steps]; [reflexivity|].
+  destruct (pyidx st i) as [c|]; cbn [bind]; [|reflexivity].
+  destruct (match alist_get nmI (own_dict NO I (p c)) with Some v => negb (is_none NO v) | None => false end); [apply IH|].
+  destruct (run NO (S (S f)) (RReading NO i) I st) as [[v st1]|]; cbn [bind]; [|reflexivity].
+  destruct (set_reading NO st1 I (round_val NO (i_round NO I) v) i) as [st2|]; cbn [bind]; [|reflexivity].
+  rewrite IH. destruct (loop_steps f idxs st2) as [[n r]|]; reflexivity.
+Qed.
+
+Lemma steps_freshD f : forall (new : list cd) (a : store) r, IsCanonD a -> Forall freshD new ->
+  canonD_acc a new = Ok r ->
+  loop_steps f (zrange (zlen a) (zlen a + zlen new)) (a ++ new) = Ok (List.length new, r).
+Proof.
+  induction new as [|d new IH]; intros a r Ha Hf Hr.
+  - rewrite zrange_nil by (cbn; lia). rewrite app_nil_r. cbn in Hr. inversion Hr. reflexivity.
+  - inversion Hf as [|? ? Hd Hf']; subst. destruct Hd as (HdI & HdM & Hg).
+    pose proof (zlen_nonneg new). rewrite zlen_cons.
+    rewrite zrange_cons by lia. cbn [loop_steps]. rewrite (pyidx_mid NO a new d).
+    unfold EngineProofs.fresh, EngineProofs.own in HdI. rewrite HdI.
+    rewrite run_S. cbn [step]. rewrite (Hshape f a d new Ha Hg).
+    cbn [canonD_acc] in Hr.
+    destruct (D a d) as [r0|e] eqn:Er; cbn [bind] in *; [|discriminate].
+    rewrite (set_reading_mid NO I a new (slotM d (snd r0))). cbn [bind]. fold (rndI (fst r0)). fold (deco d r0).
+    replace (a ++ deco d r0 :: new) with ((a ++ [deco d r0]) ++ new) by (rewrite <- app_assoc; reflexivity).
+    replace (zlen a + 1) with (zlen (a ++ [deco d r0])) by (rewrite zlen_snoc; reflexivity).
+    replace (zlen a + (1 + zlen new)) with (zlen (a ++ [deco d r0]) + zlen new) by (rewrite zlen_snoc; lia).
+    rewrite (IH _ r); [reflexivity|econstructor; [exact Ha|repeat split; assumption|exact Er]|assumption|exact Hr].
+Qed.
+
+(* with two or more calculated candles the resume index is the end of the history *)
+Lemma find_calc_index_endD (cs : store) (new : list cd) : IsCanonD cs -> (2 <= List.length cs)%nat -> Forall freshD new ->
+  find_calc_index NO I (cs ++ new) = List.length cs.
+Proof.
+  intros Hc Hl Hf. pose proof (iscanonD_has_key cs Hc) as Hk. pose proof (freshD_I new Hf) as HfI.
+  destruct cs as [|c0 r]; [cbn in Hl; lia|]. cbn [app find_calc_index].
+  inversion Hk as [|? ? Hk0 Hkr]; subst. unfold EngineProofs.own in Hk0. rewrite Hk0. cbn [negb].
+  rewrite (last_with_key_fresh_tail NO I) by assumption.
+  assert (Hgen : forall (l : store) i, l <> [] -> Forall (fun c => alist_mem nmI (own NO I c) = true) l ->
+                 last_with_key NO I l i = Some (i + List.length l - 1)%nat).
+  { induction l as [|c l IH]; intros i Hne Hk'; [congruence|].
+    inversion Hk' as [|? ? Hc0 Hk'']; subst. cbn [last_with_key List.length].
+    destruct l as [|c' l'].
+    - cbn. unfold EngineProofs.own in Hc0. rewrite Hc0. f_equal. lia.
+    - rewrite (IH (S i)) by (try discriminate; assumption). f_equal. cbn [List.length]. lia. }
+  assert (Hr : r <> []) by (destruct r; [cbn in Hl; lia|discriminate]).
+  rewrite (Hgen r 1%nat Hr Hkr). cbn [List.length]. lia.
+Qed.
+
+(* after k candles are appended to a calculated indicator, calculate() makes exactly k
+   _calculate_reading invocations, whatever the length of the history *)
+Theorem append_stepsD (cs : store) (new : list cd) (r : store) : IsCanonD cs -> (2 <= List.length cs)%nat ->
+  Forall freshD new -> calculate NO I (cs ++ new) = Ok r ->
+  loop_steps 13 (zrange (Z.of_nat (find_calc_index NO I (cs ++ new))) (zlen (cs ++ new))) (cs ++ new) = Ok (List.length new, r).
+Proof.
+  intros Hc Hl Hf Hr. rewrite (append_is_canonD cs new Hc Hf) in Hr.
+  rewrite (find_calc_index_endD cs new Hc Hl Hf). rewrite zlen_app. fold (zlen cs).
+  apply steps_freshD; assumption.
+Qed.
+Theorem calculate_is_loop_steps st :
+  calculate NO I st = ('(_, r) <- loop_steps 13 (zrange (Z.of_nat (find_calc_index NO I st)) (zlen st)) st ;; Ok r).
+Proof. rewrite calculate_is_loop. change 15%nat with (S (S 13)). apply loop_steps_loop. Qed.
+
+(* ---------------------------------------------------------------- maintenance (C14) *)
+Variable key : string.
+Hypothesis HIman : i_managed NO I = [(key, M)].
+Hypothesis HMleaf : i_subs NO M = [] /\ i_managed NO M = [].
+Hypothesis HItop : i_sub NO I = false.
+Hypothesis HMsub : i_sub NO M = true.
+
+Lemma tree_names_data : tree_names NO FUEL I = [(false, nmI); (true, nmM)].
+Proof.
+  change FUEL with (S (S 14)). cbn [tree_names]. rewrite HIsubs, HIman. destruct HMleaf as [Es Em].
+  cbn [flat_map map snd app tree_names]. rewrite Es, Em, HItop, HMsub. reflexivity.
+Qed.
+
+Lemma purge_deco d r : freshD d ->
+  {| t := t (deco d r); p := purge_payload NO (tree_names NO FUEL I) (p (deco d r)) |} = d.
+Proof.
+  intros (HfI & HfM & _). rewrite tree_names_data.
+  unfold EngineProofs.fresh, EngineProofs.own, own_dict in HfI, HfM. rewrite HItop in HfI. rewrite HMsub in HfM.
+  unfold deco, purge_payload, EngineProofs.setk, with_own_dict, EngineProofs.own, own_dict. rewrite HItop. cbn [t p fold_left fst snd inds subs cur clean tagged].
+  destruct d as [ts q]. destruct q as [cu cl tg ii ss]. cbn [t p Candle.inds Candle.subs Candle.cur Candle.clean Candle.tagged] in *.
+  destruct (snd r) as [w|]; cbn [EngineProofs.slot]; unfold EngineProofs.setk, with_own_dict, EngineProofs.own, own_dict; rewrite ?HMsub;
+    cbn [t p Candle.inds Candle.subs Candle.cur Candle.clean Candle.tagged].
+  - rewrite (alist_del_set_fresh nmI _ ii HfI), (alist_del_set_fresh nmM _ ss HfM). reflexivity.
+  - rewrite (alist_del_set_fresh nmI _ ii HfI), (alist_del_absent nmM ss HfM). reflexivity.
+Qed.
+
+Lemma purge_freshD_cd d : freshD d -> {| t := t d; p := purge_payload NO (tree_names NO FUEL I) (p d) |} = d.
+Proof.
+  intros (HfI & HfM & _). rewrite tree_names_data.
+  unfold EngineProofs.fresh, EngineProofs.own, own_dict in HfI, HfM. rewrite HItop in HfI. rewrite HMsub in HfM.
+  unfold purge_payload. cbn [fold_left fst snd]. destruct d as [ts q]. destruct q as [cu cl tg ii ss].
+  cbn [t p Candle.inds Candle.subs Candle.cur Candle.clean Candle.tagged] in *.
+  rewrite (alist_del_absent nmI ii HfI), (alist_del_absent nmM ss HfM). reflexivity.
+Qed.
+Lemma purge_freshD (ds : list cd) : Forall freshD ds -> purge NO I ds = ds.
+Proof.
+  induction 1 as [|d ds Hd _ IH]; [reflexivity|]. unfold purge, purge_names in *. cbn [map].
+  rewrite (purge_freshD_cd d Hd). f_equal. exact IH.
+Qed.
+
+(* a canonical store is the canonical decoration of its purged candles, which are fresh *)
+Lemma iscanonD_purge a : IsCanonD a -> Forall freshD (purge NO I a) /\ canonD (purge NO I a) = Ok a.
+Proof.
+  induction 1 as [|a d r Ha [IHf IHc] Hd Ev].
+  - split; [constructor|reflexivity].
+  - unfold purge, purge_names in *. rewrite map_app. cbn [map]. rewrite (purge_deco d r Hd). split.
+    + apply Forall_app. split; [exact IHf|constructor; [exact Hd|constructor]].
+    + unfold canonD in *. rewrite canonD_acc_app, IHc. cbn [bind canonD_acc]. rewrite Ev. reflexivity.
+Qed.
+
+(* recalculate() = purge() then calculate(): reproduces exactly the store it replaced *)
+Theorem recalculate_reproducesD (st : store) : IsCanonD st -> calculate NO I (purge NO I st) = Ok st.
+Proof.
+  intros Hc. destruct (iscanonD_purge st Hc) as [Hf Hcan]. rewrite batch_is_canonD by exact Hf. exact Hcan.
+Qed.
+
+(* recomputing an index that already holds a reading, addressed from either end *)
+Theorem calc_index_reproducesD (st : store) (i : Z) : IsCanonD st -> - zlen st <= i < zlen st ->
+  calculate_index NO I i None st = Ok st.
+Proof.
+  intros Hc Hi. unfold calculate_index. change FUEL with (S (S (S 13))). rewrite run_S. cbn [step].
+  rewrite !run_subs_nil. cbn [bind].
+  set (s := if i <? 0 then i + zlen st else i).
+  assert (Hs : 0 <= s < zlen st) by (unfold s; destruct (i <? 0) eqn:E; lia).
+  rewrite (zrange_cons s (s + 1)) by lia. rewrite zrange_nil by lia. cbn [calc_loop bind].
+  destruct (nth_error st (Z.to_nat s)) as [c|] eqn:En; [|apply nth_error_None in En; unfold zlen in *; lia].
+  destruct (split_at NO st (Z.to_nat s) c En) as (a & rest & E & L).
+  assert (Hz : s = zlen a) by (unfold zlen; lia). rewrite Hz. subst st.
+  assert (Hac : IsCanonD (a ++ [c])).
+  { eapply iscanonD_prefix; [exact Hc|]. instantiate (1 := rest). rewrite <- app_assoc. reflexivity. }
+  assert (Ha : IsCanonD a) by (eapply iscanonD_prefix; [exact Hc|reflexivity]).
+  destruct (iscanonD_last a c Hac) as (d & r & Hd & Er & Ec).
+  assert (Hg : G c) by (rewrite Ec; apply G_deco; apply Hd).
+  rewrite run_S. cbn [step]. rewrite (Hshape 13 a c rest Ha Hg).
+  rewrite Ec at 1. rewrite (Hrecomp a d r Ha Hd Er). cbn [bind].
+  rewrite Ec, slotM_deco. rewrite (set_reading_mid NO I a rest (deco d r)). cbn [bind].
+  unfold deco at 1. rewrite setk_idem. fold (deco d r). rewrite run_subs_nil. reflexivity.
+Qed.
+
+Lemma canonD_acc_purge : forall todo a r, Forall freshD todo -> canonD_acc a todo = Ok r ->
+  purge NO I r = purge NO I a ++ todo.
+Proof.
+  induction todo as [|d todo IH]; intros a r Hf H; cbn [canonD_acc] in H.
+  - inversion H; subst. rewrite app_nil_r. reflexivity.
+  - inversion Hf as [|? ? Hd Hf']; subst.
+    destruct (D a d) as [r0|e]; cbn [bind] in H; [|discriminate].
+    rewrite (IH _ _ Hf' H). rewrite (purge_app NO I). rewrite <- app_assoc. f_equal.
+    unfold purge, purge_names. cbn [map]. rewrite (purge_deco d r0 Hd). reflexivity.
+Qed.
+
+(* the states a program of append / calculate / purge / recalculate / calculate_index (on a
+   computed index of a fully calculated store) can reach, with the candles appended so far *)
+Inductive ReachD : store -> list cd -> Prop :=
+| RD_init : ReachD [] []
+| RD_append st ds new st' : ReachD st ds -> Forall freshD new -> calculate NO I (st ++ new) = Ok st' -> ReachD st' (ds ++ new)
+| RD_calculate st ds st' : ReachD st ds -> calculate NO I st = Ok st' -> ReachD st' ds
+| RD_purge st ds : ReachD st ds -> ReachD (purge NO I st) ds
+| RD_recalculate st ds st' : ReachD st ds -> calculate NO I (purge NO I st) = Ok st' -> ReachD st' ds
+| RD_calc_index st ds i st' : ReachD st ds -> IsCanonD st -> - zlen st <= i < zlen st ->
+    calculate_index NO I i None st = Ok st' -> ReachD st' ds.
+
+Definition JD (st : store) (ds : list cd) : Prop :=
+  Forall freshD ds /\ (st = ds \/ (IsCanonD st /\ canonD ds = Ok st)).
+
+Lemma calculate_canonD st : IsCanonD st -> calculate NO I st = Ok st.
+Proof. intros Hc. pose proof (append_is_canonD st [] Hc (Forall_nil _)) as A. rewrite app_nil_r in A. exact A. Qed.
+
+Lemma JD_calculate st ds st' : JD st ds -> calculate NO I st = Ok st' -> JD st' ds.
+Proof.
+  intros [Hf [->|[Hc Hcan]]] H; split; try exact Hf; right.
+  - rewrite batch_is_canonD in H by exact Hf.
+    split; [eapply canonD_acc_iscanon; [constructor|exact Hf|exact H]|exact H].
+  - rewrite (calculate_canonD st Hc) in H. inversion H; subst. split; assumption.
+Qed.
+Lemma JD_purge st ds : JD st ds -> JD (purge NO I st) ds.
+Proof.
+  intros [Hf [->|[Hc Hcan]]]; split; try exact Hf; left.
+  - apply purge_freshD. exact Hf.
+  - unfold canonD in Hcan. rewrite (canonD_acc_purge ds [] st Hf Hcan). reflexivity.
+Qed.
+
+Theorem reachD_JD st ds : ReachD st ds -> JD st ds.
+Proof.
+  induction 1 as [|st ds new st' _ IH Hn H|st ds st' _ IH H|st ds _ IH|st ds st' _ IH H|st ds i st' _ IH Hc Hi H].
+  - split; [constructor|left; reflexivity].
+  - destruct IH as [Hf [->|[Hc Hcan]]]; (split; [apply Forall_app; split; assumption|right]).
+    + assert (Hall : Forall freshD (ds ++ new)) by (apply Forall_app; split; assumption).
+      rewrite batch_is_canonD in H by exact Hall.
+      split; [eapply canonD_acc_iscanon; [constructor|exact Hall|exact H]|exact H].
+    + rewrite (append_is_canonD st new Hc Hn) in H.
+      split; [eapply canonD_acc_iscanon; [exact Hc|exact Hn|exact H]|].
+      unfold canonD in *. rewrite canonD_acc_app, Hcan. exact H.
+  - eapply JD_calculate; eassumption.
+  - apply JD_purge. exact IH.
+  - eapply JD_calculate; [apply JD_purge; exact IH|exact H].
+  - rewrite (calc_index_reproducesD st i Hc Hi) in H. inversion H; subst. exact IH.
+Qed.
+
+(* after any program, calculate() gives exactly what one calculate() over all the candles
+   appended so far gives - the same store, or the same exception *)
+Theorem programs_convergeD st ds : ReachD st ds -> calculate NO I st = calculate NO I ds.
+Proof.
+  intros HR. destruct (reachD_JD st ds HR) as [Hf [->|[Hc Hcan]]]; [reflexivity|].
+  rewrite (batch_is_canonD ds Hf), Hcan. apply calculate_canonD. exact Hc.
 Qed.
 
 End DataSlot.
